@@ -3,6 +3,9 @@
 //! plus three monitor helpers living in the SAME binary (so that the thread-local dispatch override
 //! of the `verif-hooks` feature is shared with the library code):
 //!   force_backend(name | None), dispatch_counts(), buffer_info(obj)
+//! and one reference route that does NOT go through the bindings:
+//!   core_meme_score(rows, background, pvalue) = the core library's
+//!   ScoringMatrix::<Dna>::to_score_distribution().score(pvalue) for the same f32 cells
 use pyo3::exceptions::PyValueError;
 use pyo3::ffi;
 use pyo3::prelude::*;
@@ -61,6 +64,30 @@ fn buffer_info(obj: &Bound<PyAny>) -> PyResult<(usize, isize, bool, isize, Optio
     }
 }
 
+/// What the core library answers for `score(pvalue)` (MEME method) on a DNA scoring matrix with
+/// exactly these f32 cells (symbol order A C T G N) and this background: the bindings are a thin
+/// wrapper over the same call and must return the same number for the same double-precision p-value.
+#[pyfunction]
+fn core_meme_score(rows: Vec<Vec<f32>>, background: Vec<f32>, pvalue: f64) -> PyResult<f64> {
+    use lightmotif::abc::{Background, Dna};
+    use lightmotif::dense::DenseMatrix;
+    use lightmotif::pwm::ScoringMatrix;
+    if background.len() != 5 || rows.iter().any(|r| r.len() != 5) {
+        return Err(PyValueError::new_err("expected 5 columns"));
+    }
+    let mut bg = [0f32; 5];
+    bg.copy_from_slice(&background);
+    let bg = Background::<Dna>::new(bg).map_err(|_| PyValueError::new_err("invalid background"))?;
+    let mut m = DenseMatrix::<f32, lightmotif::num::U5>::new(rows.len());
+    for (i, r) in rows.iter().enumerate() {
+        for j in 0..5 {
+            m[i][j] = r[j];
+        }
+    }
+    let pssm = ScoringMatrix::<Dna>::new(bg, m);
+    Ok(pssm.to_score_distribution().score(pvalue) as f64)
+}
+
 #[pymodule]
 fn lmverif_py(py: Python<'_>, m: &Bound<PyModule>) -> PyResult<()> {
     let lib = PyModule::new_bound(py, "lightmotif.lib")?;
@@ -69,5 +96,6 @@ fn lmverif_py(py: Python<'_>, m: &Bound<PyModule>) -> PyResult<()> {
     m.add_function(wrap_pyfunction!(force_backend, m)?)?;
     m.add_function(wrap_pyfunction!(dispatch_counts, m)?)?;
     m.add_function(wrap_pyfunction!(buffer_info, m)?)?;
+    m.add_function(wrap_pyfunction!(core_meme_score, m)?)?;
     Ok(())
 }
